@@ -16,6 +16,9 @@ use std::time::{Duration, Instant};
 use serde::Deserialize;
 use serde_json::{Value, json};
 
+pub mod model;
+pub mod workers;
+
 pub const VERIF_DIR: &str = "/verif";
 
 #[derive(Clone, Copy, Debug, PartialEq, Eq)]
